@@ -41,22 +41,6 @@ cfg_not_miri! {
                 fn partial_cmp(&self, other: &Self) -> Option<cmp::Ordering> {
                     Some(self.cmp(other))
                 }
-
-                fn lt(&self, other: &Self) -> bool {
-                    other.time < self.time
-                }
-
-                fn le(&self, other: &Self) -> bool {
-                    other.time <= self.time
-                }
-
-                fn gt(&self, other: &Self) -> bool {
-                    other.time > self.time
-                }
-
-                fn ge(&self, other: &Self) -> bool {
-                    other.time >= self.time
-                }
             }
 
             impl<A> cmp::Ord for EventNode<A>
@@ -64,8 +48,12 @@ cfg_not_miri! {
                 A: Application,
             {
                 fn cmp(&self, other: &Self) -> cmp::Ordering {
-                    // Inverted call should act as reverse
-                    other.time.cmp(&self.time)
+                    // Inverted call should act as reverse; events of one instant
+                    // leave the heap in the order they were added
+                    other
+                        .time
+                        .cmp(&self.time)
+                        .then_with(|| other.id.cmp(&self.id))
                 }
             }
 
@@ -79,6 +67,7 @@ cfg_not_miri! {
                 zero_queue: VecDeque<EventNode<A>>,
 
                 last_event_simtime: SimTime,
+                next_id: EventId,
             }
 
             impl<A> FutureEventSet<A>
@@ -112,6 +101,7 @@ cfg_not_miri! {
                         zero_queue: VecDeque::with_capacity(32),
 
                         last_event_simtime: options.start_time,
+                        next_id: 0,
                     }
                 }
 
@@ -158,8 +148,11 @@ cfg_not_miri! {
                         "Sorry we cannot timetravel yet"
                     );
 
+                    let id = self.next_id;
+                    self.next_id += 1;
+
                     let node = EventNode {
-                        id: 0,
+                        id,
                         event: event.into(),
                         time,
 
@@ -284,22 +277,6 @@ cfg_miri! {
             fn partial_cmp(&self, other: &Self) -> Option<cmp::Ordering> {
                 Some(self.cmp(other))
             }
-
-            fn lt(&self, other: &Self) -> bool {
-                other.time < self.time
-            }
-
-            fn le(&self, other: &Self) -> bool {
-                other.time <= self.time
-            }
-
-            fn gt(&self, other: &Self) -> bool {
-                other.time > self.time
-            }
-
-            fn ge(&self, other: &Self) -> bool {
-                other.time >= self.time
-            }
         }
 
         impl<A> cmp::Ord for EventNode<A>
@@ -307,8 +284,12 @@ cfg_miri! {
             A: Application,
         {
             fn cmp(&self, other: &Self) -> cmp::Ordering {
-                // Inverted call should act as reverse
-                other.time.cmp(&self.time)
+                // Inverted call should act as reverse; events of one instant
+                // leave the heap in the order they were added
+                other
+                    .time
+                    .cmp(&self.time)
+                    .then_with(|| other.id.cmp(&self.id))
             }
         }
 
@@ -322,6 +303,7 @@ cfg_miri! {
             zero_queue: VecDeque<EventNode<A>>,
 
             last_event_simtime: SimTime,
+            next_id: EventId,
         }
 
         impl<A> FutureEventSet<A>
@@ -355,6 +337,7 @@ cfg_miri! {
                     zero_queue: VecDeque::with_capacity(32),
 
                     last_event_simtime: options.start_time,
+                    next_id: 0,
                 }
             }
 
@@ -401,8 +384,11 @@ cfg_miri! {
                     "Sorry we cannot timetravel yet"
                 );
 
+                let id = self.next_id;
+                self.next_id += 1;
+
                 let node = EventNode {
-                    id: 0,
+                    id,
                     event: event.into(),
                     time,
 
